@@ -4,7 +4,9 @@
 (* one table row per value (binding B3, spec -> code): the row's bytes are fed to the     *)
 (* real parsers, the row's value to the real formatters.                                  *)
 EXTENDS LLSDFormat, Json
-CONSTANT Big          \* FALSE: quick sets, TRUE: thorough sets
+CONSTANT Big,         \* FALSE: quick sets, TRUE: thorough sets
+         Tiny,        \* only the leaves (used for the run that must refute SniffTrimBoth)
+         SniffTrimBoth \* FALSE: the dispatcher skips leading white space only; TRUE: the variant that trims both ends
 VARIABLE val
 
 \* opaque leaves: IEEE bytes / texts written out as constants (struct.pack('!d'), repr)
@@ -20,13 +22,15 @@ DT == << <<<<0, 0, 0, 0, 0, 0, 0, 0>>, <<1970, 1, 1, 0, 0, 0, 0>>>>,
 
 Reals == {V("real", RT[k][2]) : k \in 1..Len(RT)}
 Dates == {V("date", DT[k][2]) : k \in 1..Len(DT)}
-Ints == {V("int", b) : b \in {<<0, 0, 0, 0>>, <<0, 0, 0, 1>>, <<255, 255, 255, 255>>, <<127, 255, 255, 255>>,
+\* (10 and 32: the last encoded byte is ASCII white space)
+Ints == {V("int", b) : b \in {<<0, 0, 0, 10>>, <<0, 0, 0, 32>>, <<0, 0, 0, 0>>, <<0, 0, 0, 1>>, <<255, 255, 255, 255>>, <<127, 255, 255, 255>>,
                                <<128, 0, 0, 0>>, <<0, 0, 1, 44>>, <<255, 255, 255, 0>>}}
-Uuids == {V("uuid", [k \in 1..16 |-> 0]), V("uuid", [k \in 1..16 |-> IF k = 1 THEN 171 ELSE 15 * k])}
+Uuids == {V("uuid", [k \in 1..16 |-> 0]), V("uuid", [k \in 1..16 |-> IF k = 1 THEN 171 ELSE 15 * k]),
+          V("uuid", [k \in 1..16 |-> IF k = 16 THEN 10 ELSE 7 * k]), V("uuid", [k \in 1..16 |-> IF k = 16 THEN 32 ELSE k])}
 \* "", a, newline, quote, double quote, backslash, backslash-n, a NL b, e-acute, x'\, NUL
-StrBytes == {<<>>, <<97>>, <<10>>, <<39>>, <<34>>, <<92>>, <<92, 110>>, <<97, 10, 98>>, <<195, 169>>, <<120, 39, 92>>, <<0>>}
+StrBytes == {<<97, 32>>, <<97, 9>>, <<98, 10>>, <<32>>, <<>>, <<97>>, <<10>>, <<39>>, <<34>>, <<92>>, <<92, 110>>, <<97, 10, 98>>, <<195, 169>>, <<120, 39, 92>>, <<0>>}
 Strs == {V("str", b) : b \in StrBytes}
-Bins == {V("bin", b) : b \in {<<>>, <<0>>, <<10, 255>>, <<1, 2, 3>>, <<250, 251, 252, 253>>}}
+Bins == {V("bin", b) : b \in {<<1, 10>>, <<2, 32>>, <<>>, <<0>>, <<10, 255>>, <<1, 2, 3>>, <<250, 251, 252, 253>>}}
 Uris == {V("uri", b) : b \in {<<>>, <<104, 116, 116, 112, 58, 47, 47, 120>>, <<97, 34, 92>>}}
 LeavesA == {V("undef", <<>>), V("bool", <<0>>), V("bool", <<1>>)} \cup Ints \cup Reals \cup Uuids \cup Strs \cup Bins \cup Uris \cup Dates
 LeavesB == {V("undef", <<>>), V("bool", <<1>>), V("int", <<255, 255, 255, 255>>), V("str", <<97, 10, 98>>),
@@ -58,7 +62,7 @@ NotAltMap(s, rt) == IF Len(s) = 0 THEN <<>>
                     ELSE <<<<34>> \o EscStr(s[1][1], 34) \o <<34, 32, 58>> \o NotAlt(s[1][2], rt)>> \o NotAltMap(Tail(s), rt)
 
 WireBytes == Bin(ToWire(val, DT))
-Init == /\ val \in D2
+Init == /\ val \in (IF Tiny THEN LeavesA ELSE D2)
         /\ PrintT(ToJson([row |-> "val", v |-> val, bin |-> WireBytes, notation |-> Not(val, RT), alt |-> NotAlt(val, RT)]))
 Next == UNCHANGED val
 Spec == Init /\ [][Next]_val
@@ -76,6 +80,14 @@ BinFraming == /\ LET r == PBin(WireBytes \o <<93, 7>>, 1) IN r.ok /\ r.i = Len(W
 NotRoundTrip == Same(DenotesNot(Not(val, RT), RT), val)
 NotAltRoundTrip == Same(DenotesNot(NotAlt(val, RT), RT), val)
 NotNoNewline == NoRawNewline(Not(val, RT))
+\* the sniffing dispatcher picks the right format for every document of the table and, through it, the document
+\* denotes the same value as through the format's own parser -- also with white space in front of it
+SniffLaw == /\ SniffKind(Trimmed(BinDoc(ToWire(val, DT)), SniffTrimBoth)) = "bin"
+            /\ Same(SniffParseWith(BinDoc(ToWire(val, DT)), DT, RT, SniffTrimBoth), val)
+            /\ Same(SniffParseWith(<<10, 32>> \o BinDoc(ToWire(val, DT)), DT, RT, SniffTrimBoth), val)
+            /\ SniffKind(Trimmed(Not(val, RT), SniffTrimBoth)) = "not"
+            /\ Same(SniffParseWith(Not(val, RT), DT, RT, SniffTrimBoth), val)
+            /\ Same(SniffParseWith(<<32, 9>> \o Not(val, RT), DT, RT, SniffTrimBoth), val)
 \* vacuity guard for NotNoNewline: some value does contain a newline in a string
 HasNewlineString == \E k \in 1..Len(WireBytes) : WireBytes[k] = 10
 ====
